@@ -93,11 +93,12 @@ def canon_elems(e):
             self.generic_visit(node)
             u = is_unpack(node)
             if u is not None and not _is_func_call(u[0]):
-                return ast.Subscript(value=u[0], slice=ast.Constant(value=u[1]), ctx=ast.Load())
+                return self.visit_Subscript(ast.Subscript(value=u[0], slice=ast.Constant(value=u[1]), ctx=ast.Load()), False)
             return node
 
-        def visit_Subscript(self, node):
-            self.generic_visit(node)
+        def visit_Subscript(self, node, descend=True):
+            if descend:
+                self.generic_visit(node)
             if isinstance(node.value, (ast.Tuple, ast.List)) and isinstance(node.slice, ast.Constant) and isinstance(node.slice.value, int) and not isinstance(node.slice.value, bool) \
                     and -len(node.value.elts) <= node.slice.value < len(node.value.elts) and not any(isinstance(x, ast.Starred) for x in node.value.elts):
                 return node.value.elts[node.slice.value]  # element of a tuple built in place
@@ -241,6 +242,9 @@ def weak_mac_test(cx, r):
             return q.unparse(n.ast)
         if isinstance(E, ast.Compare) and any(isinstance(o, (ast.In, ast.NotIn)) for o in E.ops) and any(is_signer_call(x) for x in ast.walk(E)):
             return q.unparse(n.ast)
+        if isinstance(E, ast.Call) and q.call_attr(E) == "compare_digest" and len(E.args) == 2 and any(is_signer_call(x) for x in ast.walk(E)) and not any(is_signer_call(strip_wrappers(a)) for a in E.args):
+            # the signer's output goes through a further (many-to-one) transformation before it is compared, e.g. hex decoding / case folding
+            return q.unparse(n.ast) + "  [operands transformed before the comparison]"
     return None
 
 
@@ -255,18 +259,29 @@ def check_mac_gate(ck, cx: Ctx):
     macs = []
     for r in rets:
         m = mac_fact(cx, r)
+        weak = None
         if m is None:
             weak = weak_mac_test(cx, r)
             if weak is None:
                 absent_or_unknown(cx.rd, r, lambda E: any(is_signer_call(x) for x in ast.walk(E)) or any(isinstance(x, ast.Call) and q.call_attr(x) == "compare_digest" for x in ast.walk(E)),
                                   recognised_compares(cx), "the MAC comparison")
         ck.ob("C23.mac-gate", fi, r.ast, m is not None,
-              "return of a value is dominated by the success branch of the MAC comparison (signer output vs. parsed signature)%s" % (": " + m.text if m else ""))
+              "return of a value is dominated by the success branch of the MAC comparison (signer output vs. parsed signature, both verbatim)%s" % (": " + m.text if m else ("; found only: " + weak if weak else "")))
         if m is None:
             continue
         macs.append((r, m))
         # the key is the secret, the passed signature comes from the input
         key_ok = m.key is not None and base_id(strip_wrappers(m.key)) == "secret"
+        if not key_ok and m.key is not None:
+            kn = {base_id(x) for x in ast.walk(m.key) if isinstance(x, ast.Name)}
+            hard = [x for x in ast.walk(m.key) if isinstance(x, ast.Constant) and isinstance(x.value, (bytes, str)) and x.value not in ("", b"")]
+            if "secret" in kn and not hard:
+                # a key derived from the secret only (selected by key version, conditional on its type, renamed): fine unless something else is mixed in
+                if kn - {"secret", "__unpack__", "_decode_fields_v2", "value", "isinstance", "dict", "int", "utf8"}:
+                    raise AnalysisError("%s: cannot establish what the MAC key %s is" % (fi.qualname, q.unparse(m.key)[:80]))
+                key_ok = True
+            elif "secret" in kn or any("@" in (x.id if isinstance(x, ast.Name) else "") for x in ast.walk(m.key)):
+                raise AnalysisError("%s: cannot establish what the MAC key %s is" % (fi.qualname, q.unparse(m.key)[:80]))
         ck.ob("C23.mac-gate", fi, r.ast, key_ok, "the expected signature is computed by %s with the secret as key" % m.signer, construct="key of " + q.unparse(m.call)[:120])
         passed_ok = "value" in names_of(m.passed) and not any(is_signer_call(x) for x in ast.walk(m.passed))
         ck.ob("C23.mac-gate", fi, r.ast, passed_ok, "the compared signature is parsed from the input value (not recomputed)", construct="passed " + q.unparse(m.passed)[:120])
@@ -378,6 +393,8 @@ def time_facts(cx, r, m):
     out = []
     for e, pol, text in parsed_facts(cx.facts[r.id]):
         g = fact_geq0(e, pol)
+        if g is None:
+            g = fact_geq0(cx.rd.expand(e, r), pol)  # e.g. a module-level constant for the seconds per day
         if g is None:
             continue
         coefs, const, strict, atoms = g
@@ -509,12 +526,34 @@ def signer_versions(ck, enc):
 def check_entry(ck, dec, decoder_signer, sv):
     cx = Ctx(ck, dec)
     rets = nonnull_returns(dec)
-    ck.floor("C23.version-floor", len(rets), 2, "value-returning returns in decode_signed_value")
+    ck.floor("C23.version-floor", len(rets), 1, "value-returning returns in decode_signed_value")
+    virtual = []
     for r in rets:
-        E = cx.rd.expand(r.ast.value, r)
-        if not (isinstance(E, ast.Call) and isinstance(E.func, ast.Name) and E.func.id in decoder_signer):
-            ck.ob("C23.mac-gate", dec, r.ast, False, "decode_signed_value returns only None or the result of a format decoder")
+        E0 = cx.rd.expand(r.ast.value, r)
+        if isinstance(E0, ast.Call) and isinstance(E0.func, ast.Name) and E0.func.id in decoder_signer:
+            virtual.append((r, E0, None))
             continue
+        # a lookup table instead of the branch chain: {1: f1, 2: f2}.get(version)(...) / TABLE[version](...)
+        f = E0.func if isinstance(E0, ast.Call) else None
+        tbl = key = None
+        if isinstance(f, ast.Call) and isinstance(f.func, ast.Attribute) and f.func.attr == "get" and f.args:
+            tbl, key = f.func.value, f.args[0]
+        elif isinstance(f, ast.Subscript):
+            tbl, key = f.value, f.slice
+        if isinstance(tbl, ast.Name) and tbl.id in dec.module.assigns:
+            tbl = dec.module.assigns[tbl.id]
+        if isinstance(tbl, ast.Dict) and key is not None and _is_version_expr(strip_wrappers(key)) and all(isinstance(k_, ast.Constant) and isinstance(v_, ast.Name) for k_, v_ in zip(tbl.keys, tbl.values)):
+            for k_, v_ in zip(tbl.keys, tbl.values):
+                if v_.id not in decoder_signer:
+                    raise AnalysisError("decode_signed_value: dispatch table entry %s is not a format decoder the rule knows" % v_.id)
+                virtual.append((r, ast.Call(func=ast.Name(id=v_.id, ctx=ast.Load()), args=E0.args, keywords=E0.keywords), (k_.value, strip_wrappers(key))))
+            continue
+        if isinstance(E0, ast.Constant) or (isinstance(E0, ast.Name) and E0.id in dec.params()):
+            ck.ob("C23.mac-gate", dec, r.ast, False, "decode_signed_value returns only None or the result of a format decoder (returns %s)" % q.unparse(E0)[:40])
+            continue
+        raise AnalysisError("decode_signed_value: returns %s, which the rule cannot relate to a format decoder" % q.unparse(E0)[:80])
+    ck.floor("C23.dispatch", len(virtual) + len([v for v in ck.violations if v.rule == "C23.mac-gate" and v.func == dec.qualname]), 2, "format decoders dispatched to by decode_signed_value")
+    for r, E, table_key in virtual:
         # floor
         floor = None
         ver_expr = None
@@ -541,7 +580,9 @@ def check_entry(ck, dec, decoder_signer, sv):
         # dispatch
         want = sv.get(decoder_signer[E.func.id])
         got = None
-        for Ef, pol, text, raw in cx.xfacts(r):
+        if table_key is not None:
+            got, ver_expr = table_key[0], (ver_expr or table_key[1])
+        for Ef, pol, text, raw in (cx.xfacts(r) if table_key is None else []):
             eq = equality_fact(Ef, pol)
             if eq and eq[2]:
                 for a, b in ((eq[0], eq[1]), (eq[1], eq[0])):
@@ -676,6 +717,37 @@ def payload_codec(elts):
     return None, False
 
 
+def flatten_elts(container):
+    """Elements of a list/tuple display with ``*map(f, (a, b))`` / ``*[f(x) for x in (a, b)]`` / ``*(a, b)`` spelled out."""
+    out = []
+    for el in container.elts:
+        if not isinstance(el, ast.Starred):
+            out.append(el)
+            continue
+        v = el.value
+        if isinstance(v, (ast.Tuple, ast.List)) and not any(isinstance(x, ast.Starred) for x in v.elts):
+            out.extend(v.elts)
+            continue
+        if isinstance(v, ast.Call) and isinstance(v.func, ast.Name) and v.func.id == "map" and len(v.args) == 2 and isinstance(v.args[0], ast.Name) and isinstance(v.args[1], (ast.Tuple, ast.List)) \
+                and not any(isinstance(x, ast.Starred) for x in v.args[1].elts):
+            out.extend(ast.Call(func=v.args[0], args=[x], keywords=[]) for x in v.args[1].elts)
+            continue
+        if isinstance(v, (ast.ListComp, ast.GeneratorExp)) and len(v.generators) == 1 and not v.generators[0].ifs and isinstance(v.generators[0].target, ast.Name) and isinstance(v.generators[0].iter, (ast.Tuple, ast.List)) \
+                and not any(isinstance(x, ast.Starred) for x in v.generators[0].iter.elts):
+            import copy
+
+            var = v.generators[0].target.id
+            for x in v.generators[0].iter.elts:
+                class S(ast.NodeTransformer):
+                    def visit_Name(self, node, x=x):
+                        return copy.deepcopy(x) if node.id == var and isinstance(node.ctx, ast.Load) else node
+
+                out.append(S().visit(copy.deepcopy(v.elt)))
+            continue
+        raise AnalysisError("create_signed_value: starred element %s of the wire format cannot be spelled out" % q.unparse(el)[:80])
+    return out
+
+
 def is_join(e):
     return isinstance(e, ast.Call) and isinstance(e.func, ast.Attribute) and e.func.attr == "join" and isinstance(e.func.value, ast.Constant) and len(e.args) == 1 and isinstance(e.args[0], (ast.List, ast.Tuple))
 
@@ -696,7 +768,7 @@ def encoder_tables(ck, enc):
             raise AnalysisError("create_signed_value: a value is returned outside a 'version == K' branch")
         E = cx.rd.expand(r.ast.value, r)
         if is_join(E):
-            elts = [classify_enc_elt(enc, x) for x in E.args[0].elts]
+            elts = [classify_enc_elt(enc, x) for x in flatten_elts(E.args[0])]
             sig = [x for x in elts if x[0] == "sig"]
             if len(sig) != 1:
                 raise AnalysisError("create_signed_value v%s: expected exactly one signature element" % ver)
@@ -706,7 +778,7 @@ def encoder_tables(ck, enc):
         elif isinstance(E, ast.BinOp) and isinstance(E.op, ast.Add) and is_signer_call(strip_wrappers(E.right)) and is_join(strip_wrappers(E.left)):
             T = strip_wrappers(E.left)
             call = strip_wrappers(E.right)
-            elts = [classify_enc_elt(enc, x) for x in T.args[0].elts]
+            elts = [classify_enc_elt(enc, x) for x in flatten_elts(T.args[0])]
             signed_same = len(call.args) == 2 and same(strip_wrappers(call.args[1]), T)
             out[ver] = dict(mode="buffer", sep=T.func.value.value, roles=[x[0] for x in elts] + ["sig"], signer=call.func.id, codec=payload_codec(elts), consts=[x[1] for x in elts if x[0] == "const"],
                             signed_same=signed_same, ret=r, formatted=[x[2] for x in elts] + [False], key=call.args[0] if call.args else None)
@@ -812,11 +884,18 @@ def check_tables_buffer(ck, cx, r, m, P, ts_op, name_field, codec, tab, parser):
     pos = {"value": field_index(P, m), "ts": field_index(ts_op, m), "name": field_index(name_field, m), "sig": field_index(m.passed, m)}
     # key version: the subscript of the secret
     for x in q.walk_body(fi.node):
+        sel = None
         if isinstance(x, ast.Subscript) and isinstance(x.ctx, ast.Load) and isinstance(x.value, ast.Name) and x.value.id == "secret":
+            sel = x.slice
+        elif isinstance(x, ast.Call) and isinstance(x.func, ast.Attribute) and x.func.attr == "get" and isinstance(x.func.value, ast.Name) and x.func.value.id == "secret" and x.args:
+            sel = x.args[0]
+        if sel is not None:
             ns = cx.rd.cfg_nodes_of(x)
             if ns:
-                pos["kv"] = field_index(strip_wrappers(cx.rd.expand(x.slice, ns[0])), m)
+                pos["kv"] = field_index(strip_wrappers(cx.rd.expand(sel, ns[0])), m)
     want = {role: i for i, role in enumerate([x for x in tab["roles"] if x != "const"])}
+    if "kv" not in pos:
+        want.pop("kv", None)  # the decoder does not select a key by version: nothing to compare for that role
     ck.ob("C23.fields-agree", fi, r.ast, pos == want, "field positions used by the decoder %s equal the encoder's field order %s" % (sorted(pos.items()), sorted(want.items())),
           construct="positions %s" % sorted(pos.items(), key=lambda kv: kv[0]))
     ck.ob("C23.fields-agree", fi, r.ast, m.signer == tab["signer"] and tab["signed_same"], "decoder verifies with %s, the signer the encoder applies to the whole joined prefix" % tab["signer"], construct="signer " + m.signer)
@@ -827,7 +906,17 @@ def check_tables_buffer(ck, cx, r, m, P, ts_op, name_field, codec, tab, parser):
         if d.kind == "param":
             continue
         v = d.value
-        ok = ok and d.kind == "assign" and isinstance(v, ast.Subscript) and isinstance(v.value, ast.Name) and v.value.id == "secret" and field_index(cx.rd.expand(v.slice, d.node), m) == want.get("kv")
+        sel = None
+        if d.kind == "assign" and isinstance(v, ast.Subscript) and isinstance(v.value, ast.Name) and v.value.id == "secret":
+            sel = v.slice
+        elif d.kind == "assign" and isinstance(v, ast.Call) and isinstance(v.func, ast.Attribute) and v.func.attr == "get" and isinstance(v.func.value, ast.Name) and v.func.value.id == "secret" and 1 <= len(v.args) <= 2 and not v.keywords:
+            if len(v.args) == 2 and not (isinstance(v.args[1], ast.Constant) and v.args[1].value is None):
+                ok = False  # an unknown key version silently falls back to a fixed key
+                continue
+            sel = v.args[0]
+        else:
+            raise AnalysisError("%s: the secret is re-bound in a way the rule does not understand: %s" % (fi.qualname, q.unparse(v)[:80] if v is not None else d.kind))
+        ok = ok and field_index(cx.rd.expand(sel, d.node), m) == want.get("kv")
     ck.ob("C23.fields-agree", fi, r.ast, ok, "the MAC key is the secret, or the secret selected by the key-version field (position %s)" % want.get("kv"), construct="key selection")
 
 
@@ -931,6 +1020,14 @@ def check_consumer(ck, cons, enc, tabs):
                 has_len = any(isinstance(y, ast.Call) and isinstance(y.func, ast.Name) and y.func.id == "len" and len(y.args) == 1 and isinstance(y.args[0], ast.Name) and y.args[0].id == ps[0] for y in ast.walk(x.value))
                 has_fmt = any(isinstance(y, ast.Constant) and y.value in ("%d:", b"%d:") for y in ast.walk(x.value))
                 okf = has_len and has_fmt and isinstance(x.value, ast.BinOp) and isinstance(x.value.op, ast.Add) and isinstance(strip_wrappers(x.value.right), ast.Name) and strip_wrappers(x.value.right).id == ps[0]
+                v_ = strip_wrappers(x.value)
+                if not okf and isinstance(v_, ast.BinOp) and isinstance(v_.op, ast.Mod) and isinstance(v_.left, ast.Constant) and v_.left.value in ("%d:%s", b"%d:%s", b"%d:%b") and isinstance(v_.right, ast.Tuple) and len(v_.right.elts) == 2:
+                    l_, d_ = v_.right.elts
+                    okf = isinstance(l_, ast.Call) and isinstance(l_.func, ast.Name) and l_.func.id == "len" and len(l_.args) == 1 and isinstance(strip_wrappers(l_.args[0]), ast.Name) and strip_wrappers(l_.args[0]).id == ps[0] \
+                        and isinstance(strip_wrappers(d_), ast.Name) and strip_wrappers(d_).id == ps[0]
+                if not okf and isinstance(v_, ast.JoinedStr) and len(v_.values) == 3 and isinstance(v_.values[1], ast.Constant) and v_.values[1].value == ":" and all(isinstance(v_.values[k], ast.FormattedValue) for k in (0, 2)):
+                    l_, d_ = v_.values[0].value, v_.values[2].value
+                    okf = isinstance(l_, ast.Call) and isinstance(l_.func, ast.Name) and l_.func.id == "len" and len(l_.args) == 1 and isinstance(l_.args[0], ast.Name) and l_.args[0].id == ps[0] and isinstance(d_, ast.Name) and d_.id == ps[0]
         if not okf:
             raise AnalysisError("%s: field formatter in a shape the rule does not understand" % fi.qualname)
         ck.ob("C23.fields-agree", ck.use(fi), f, okf, "the field formatter writes '<len(s)>:' followed by s", construct="length prefix")
@@ -1246,8 +1343,15 @@ def normalise(ck):
         a = h.args
         one_arg = len(a.posonlyargs + a.args) == 1 and not a.kwonlyargs
         body = [s for s in h.body if not (isinstance(s, ast.Expr) and isinstance(s.value, ast.Constant))]
-        return one_arg and len(body) == 1 and isinstance(body[0], ast.Return) and any(isinstance(x, ast.Call) and isinstance(x.func, ast.Name) and x.func.id == "len" for x in ast.walk(body[0]))
+        if one_arg and len(body) == 1 and isinstance(body[0], ast.Return) and any(isinstance(x, ast.Call) and isinstance(x.func, ast.Name) and x.func.id == "len" for x in ast.walk(body[0])):
+            return True  # a field formatter
+        if one_arg and any(isinstance(x, ast.Call) and q.call_attr(x) == "partition" for x in ast.walk(h)) and any(isinstance(x, ast.Return) and isinstance(x.value, ast.Tuple) and len(x.value.elts) == 2 for x in ast.walk(h)):
+            return True  # a field consumer (s -> (field, rest)): analysed in its own right
+        return False
 
+    from ..x_secinline import reshaped
+
+    ck.repo = reshaped(ck.repo, W, ROOTS)
     ck.repo = inlined(ck.repo, W, ROOTS, keep)
     for nm in getattr(ck.repo, "inlined_helpers", []):
         ck.note("inlined private helper %s into its caller before analysis" % nm)
@@ -1324,6 +1428,7 @@ def run(ck):
 
     # field parser + consumer
     tab2 = [t for t in tabs.values() if t["mode"] == "buffer"]
+    extra_funcs = []
     if tab2:
         arities = []
         for caller in (v2, gkv):
@@ -1333,12 +1438,14 @@ def run(ck):
         ck.floor("C23.fields-agree", len(arities), 2, "callers unpacking the field parser")
         cons_name = check_field_parser(ck, parser, tab2[0], arities)
         if cons_name:
-            cons = ck.func(W, parser.qualname + ".<locals>." + cons_name)
+            cons = ck.func(W, parser.qualname + ".<locals>." + cons_name) if ck.repo.has_func(W, parser.qualname + ".<locals>." + cons_name) else ck.func(W, cons_name)
+            extra_funcs.append(cons)
             check_consumer(ck, cons, enc, tabs)
         # get_signature_key_version returns the key-version position
         cxk = Ctx(ck, gkv)
         for r in nonnull_returns(gkv):
             u = is_unpack(cxk.rd.expand(r.ast.value, r))
+            ck.need("kv" in tab2[0]["roles"], "create_signed_value: no key-version field recognised in the signed prefix")
             want = [x for x in tab2[0]["roles"] if x != "const"].index("kv")
             ck.ob("C23.fields-agree", gkv, r.ast, u is not None and u[1] == want and isinstance(u[0], ast.Call) and q.call_attr(u[0]) == parser.name, "get_signature_key_version returns field %d (key version) of the parser" % want)
 
@@ -1347,7 +1454,7 @@ def run(ck):
     check_get_version(ck, getv)
 
     funcs = {f.qualname: f for f in (dec, getv, v1, v2, parser, gkv, s1, s2)}
-    for f in ck.repo.nested(parser):
+    for f in list(ck.repo.nested(parser)) + extra_funcs:
         funcs[f.qualname] = ck.use(f)
     check_exceptions(ck, funcs, mac_ctx)
     ck.floor("C23.exc-none", check_none_input(ck, dec), 1, "uses of the possibly-None input")
@@ -1447,6 +1554,7 @@ MUTANTS = [
     ("seeded C23-adv3: fields unpacked from split(...)[:3] (appended data ignored)", _in("_decode_signed_value_v1", lambda root: _seed_adv3(root)), "C23.fields-agree"),
     ("v1: parts taken from split(...)[:3] with the length test kept on the slice", _in("_decode_signed_value_v1", replace_expr(lambda n: isinstance(n, ast.Call) and q.call_attr(n) == "split", lambda n: ast.Subscript(value=n, slice=ast.Slice(upper=ast.Constant(value=3)), ctx=ast.Load()))), "C23.fields-agree"),
     ("v2 decoder refuses names longer than 64 bytes", _in("_decode_signed_value_v2", replace_expr(lambda n: isinstance(n, ast.Compare) and "name_field" in ast.unparse(n), lambda n: parse_expr("name_field != utf8(name) or len(name_field) > 64"))), "C23.fields-agree"),
+    ("seeded C23-adv4: raw digests compared (hex case of the signature ignored)", _in("_decode_signed_value_v2", replace_expr(lambda n: isinstance(n, ast.Call) and q.call_attr(n) == "compare_digest", lambda n: ast.Call(func=n.func, args=[ast.Call(func=parse_expr("binascii.unhexlify"), args=[a], keywords=[]) for a in n.args], keywords=[]))), "C23.mac-gate"),
     ("dispatch: v1 decoder called for version 2 values too", _in("decode_signed_value", replace_expr(lambda n: isinstance(n, ast.Compare) and ast.unparse(n) == "version == 1", lambda n: parse_expr("version <= 2"))), "C23.dispatch"),
 ]
 
